@@ -114,7 +114,7 @@ def cluster_part(ctx, v, out):
         return n
 
     for si in range(nscen):
-        k = rng.choice([2, 2, 3])
+        k = rng.choice([2, 2, 3]) if ctx["tier"] == "quick" else rng.choice([2, 2, 3, 3, 4])
         nb = rng.choice([1, 2, 3, 4, 5])
         script = None
         if si == 0:
